@@ -17,39 +17,46 @@ Theorem C19_literal : forall (ic : bool) (v w : str) (p : nat) (r : str),
 Proof. exact string_rec_literal. Qed.
 Print Assumptions C19_literal.
 
-(* Keyword terminals.  For a text that begins and ends with a word character (and that the
-   regex engine reads literally: [regex_plain], outside of which the impl's recognizer is
-   not this function) the rewritten recognizer \b<text>\b matches at p iff the text is at
-   p and neither neighbour is a word character; it returns the matched input.
-   Holds for every notion of word character that case folding preserves.
-   FULL STATEMENT (not provable, see C19_kw_edge_refuted and the known findings
-   KF-C19-keyword-raw-regex / KF-C19-keyword-boundary-nonword-edge): the same for every
-   text that the KEYWORD regex matches completely. *)
-Theorem C19_keyword_partial : forall (is_word : N -> bool),
+(* Keyword terminals (after the repair of Grammar._fix_keyword_terminals: escaped text,
+   \b next to a word character, lookaround next to anything else).  For EVERY non-empty
+   text -- regex metacharacters, whitespace, '#', non-word first or last character
+   included -- the rewritten recognizer matches at p iff the text is at p (up to case with
+   ignore_case) and neither neighbour is a word character; it returns the matched input.
+   Holds for every notion of word character that case folding preserves. *)
+Theorem C19_keyword : forall (is_word : N -> bool),
   (forall c, is_word (lower_c c) = is_word c) ->
   forall (ic : bool) (v w : str) (p : nat),
-    first_is is_word v = true -> last_is is_word v = true ->
+    v <> [] ->
     kw_rec is_word ic v w p =
     if kw_spec is_word ic v w p then Some (slice w p (length v)) else None.
 Proof. exact kw_rec_spec. Qed.
-Print Assumptions C19_keyword_partial.
+Print Assumptions C19_keyword.
 
 Theorem C19_keyword_ascii : forall (ic : bool) (v w : str) (p : nat),
-  first_is ascii_word v = true -> last_is ascii_word v = true ->
+  v <> [] ->
   kw_rec ascii_word ic v w p =
   if kw_spec ascii_word ic v w p then Some (slice w p (length v)) else None.
 Proof. exact (kw_rec_spec ascii_word ascii_word_lower). Qed.
 Print Assumptions C19_keyword_ascii.
 
-(* "-x" (matched by KEYWORD: /[\w-]+/) written as a keyword: \b-x\b does not match the
-   input "-x" at all, and does match inside "a-x" right after a word character *)
-Theorem C19_kw_edge_refuted :
-  kw_rec ascii_word false [45; 120] [45; 120] 0 = None /\
-  kw_spec ascii_word false [45; 120] [45; 120] 0 = true /\
-  kw_rec ascii_word false [45; 120] [97; 45; 120] 1 = Some [45; 120] /\
-  kw_spec ascii_word false [45; 120] [97; 45; 120] 1 = false.
+(* The repair is behaviour preserving where the old code was right: for a text that begins
+   and ends with a word character the recognizer is the old one (\b on both sides). *)
+Theorem C19_keyword_repair_preserving : forall (is_word : N -> bool) (ic : bool) (v w : str) (p : nat),
+  first_is is_word v = true -> last_is is_word v = true ->
+  kw_rec is_word ic v w p = kw_rec_bb is_word ic v w p.
+Proof. exact kw_rec_preserved. Qed.
+Print Assumptions C19_keyword_repair_preserving.
+
+(* What was wrong before the repair (fixed: KF-C19-keyword-boundary-nonword-edge): with \b
+   on both sides the keyword -x does not match the input -x at all and does match inside
+   a-x; the repaired recognizer does the opposite. *)
+Theorem C19_kw_edge_repaired :
+  kw_rec_bb ascii_word false [45; 120] [45; 120] 0 = None /\
+  kw_rec_bb ascii_word false [45; 120] [97; 45; 120] 1 = Some [45; 120] /\
+  kw_rec ascii_word false [45; 120] [45; 120] 0 = Some [45; 120] /\
+  kw_rec ascii_word false [45; 120] [97; 45; 120] 1 = None.
 Proof. vm_compute. repeat split; reflexivity. Qed.
-Print Assumptions C19_kw_edge_refuted.
+Print Assumptions C19_kw_edge_repaired.
 
 (* String constants.  A body made of plain characters and of escapes \c with c other than
    the backslash (so backslash-quote, backslash-n, backslash-t and unknown escapes such as \d or \.) denotes, after the
@@ -117,7 +124,7 @@ Print Assumptions C19_name_refuted.
 
 (* Lexical precedence.  A keyword terminal sits in the sorted action list of every state
    exactly where it would sit as a plain string terminal, and carries the same implicit
-   finish flag; [kw_len_ok]: its regex is \b<text>\b, four characters longer than the text. *)
+   finish flag; [kw_len_ok]: its recognizer is named by the text (the sort key uses that length). *)
 Theorem C19_kw_rank : forall l : list aterm,
   forallb kw_len_ok l = true ->
   sort_acts (map as_string l) = map as_string (sort_acts l) /\
@@ -144,6 +151,9 @@ Example C19_nonvacuous :
      map g_rec (d_terms d) = [FRegex 0; FRegex 1; FKw s_for; FStr [43]]) /\
   kw_rec ascii_word false s_for [102; 111; 114; 32; 102; 111; 114; 97] 0 = Some s_for /\
   kw_rec ascii_word false s_for [102; 111; 114; 32; 102; 111; 114; 97] 4 = None /\
+  (* the keyword c++ matches "c++ x" at 0 and does not match "ccc" *)
+  kw_rec ascii_word false [99; 43; 43] [99; 43; 43; 32; 120] 0 = Some [99; 43; 43] /\
+  kw_rec ascii_word false [99; 43; 43] [99; 99; 99] 0 = None /\
   string_rec false [43] [97; 43; 98] 1 = Some [43] /\
   forallb unit_ok [UPlain 97; UEsc 39; UEsc 110; UEsc 46] = true.
 Proof.
